@@ -68,7 +68,8 @@ func (self *Compiler) compileFn(node ast.AnalyzedFunctionDefinition) (annotation
 				// Compile argument function.
 				//
 
-				argFnIdent := fmt.Sprintf("TRIGGER_args_for_%s", node.Ident)
+				// One argument function per annotation item: a function may carry several trigger annotations.
+				argFnIdent := fmt.Sprintf("TRIGGER_args_for_%s#%d", node.Ident, idx)
 				argFnfnRetType := ast.NewListType(ast.NewAnyType(node.Range), node.Range)
 
 				argList := make([]ast.AnalyzedExpression, len(ann.TriggerArgs.List))
